@@ -506,7 +506,7 @@ def branch_tags(case, r):
             if b == 0 and f == 0 and pb == pf and pb > 0 and tp <= av:
                 t.append("bump:b=f=0,equal_potentials(5ea9ff8 witness)")
             if b > mb or f > mf or inc < 0:
-                t.append("bump:out_of_domain")
+                t.append("bump:start_above_demand_or_negative_increase")
     elif k == "minneeds":
         t.append("min:pf>T" if case["pf"] > case["T"] else "min:pf<=T")
         if case["T"] == 0:
@@ -545,9 +545,8 @@ def run(ctx):
                     "ndarray.sum (exact rationals in the model; float rounding measured, not modelled)"]
     ctx.assumptions += ["series handed to the min-needs hand-off are non-negative, the ceiling is non-negative",
                         "meat series of the two rounds have equal length",
-                        "bump ceilings: biofuel and feed start at or below their demand schedule and the requested "
-                        "increase is non-negative (observed on every captured real hand-off); without that hypothesis "
-                        "the biofuel clause is refuted on the model (c18_bump_biofuel_ceiling_needs_domain)"]
+                        "no hypothesis on the inputs of increase_biofuels_then_feed: the never-lowers and the two ceiling "
+                        "clauses are proved and audited for arbitrary series (any sign, quantities already above demand)"]
     ctx.check_props()
     bok, bad, out = ctx.build(["Model/HelpersCheck.vo"])
     if not bok:
